@@ -22,7 +22,7 @@ PROPS = {
 PROPS["C02"] = {
     "level": "exploration",
     "rule": ("each run opens k in 2..6 logical connections (two channels, one physical session) in driver-chosen order with modes "
-             "active / idle / paused-application-reader / paused-target-reader / closing in mid-transfer (either side), payloads, write partitions, socket-buffer bounds, delivery "
+             "active / idle / paused-application-reader / paused-target-reader / closing in mid-transfer (either side) / asking for a channel the server refuses, payloads, write partitions, socket-buffer bounds, delivery "
              "chunking and (1 run in 8) a write-completion stall on the client's physical link while a stream is being opened; "
              "non-trivial = all non-paused connections completed while the others were still open (>= 2 open at once); distinct = schedule shapes"),
     "probes": ["concurrent_worlds_completed", "fault_write_stall_armed", "fault_segmentation"],
@@ -91,9 +91,9 @@ PROPS["C03"] = {
 PROPS["C15"] = {
     "level": "fault_enumeration",
     "exhaustive": True,
-    "cells": 69,
-    "rule": ("the table stall point {after connect, inside the first request line, between the two requests, inside a TLS hello, after the upgrade} x behaviour {silent, one byte per 10 s, "
-             "garbage then silent} x endpoint kind {tcp, unix, tcp+tls, ws, wss, udp/KCP, dns+udp, dns+tcp} (69 meaningful cells) is enumerated completely by run index; per run the number "
+    "cells": 87,
+    "rule": ("the table stall point {after connect, inside the first request line, between the two requests, inside a TLS hello, inside the StartTLS hello after a 101, after the upgrade} x behaviour {silent, one byte per 10 s, "
+             "garbage then silent} x endpoint kind {tcp, unix, tcp+tls, ws, wss, udp/KCP, dns+udp, dns+tcp} (87 meaningful cells) is enumerated completely by run index; per run the number "
              "of stallers (1-3), of well-behaved clients (1-3, each a separate client command), their arrival order and every delivery are sampled; non-trivial = every well-behaved "
              "client finished while the stallers stayed connected; distinct = schedule shapes"),
     "probes": ["stallers_started", "good_clients_served"],
@@ -102,8 +102,8 @@ PROPS["C15"] = {
                    "well-behaved client must complete handshake and a 1 KiB exchange within 60 simulated seconds of connecting while the stalled peers remain connected."),
     "level_note": "Stallers are harness goroutines speaking the real transports (raw sockets, real TLS client, real gorilla websocket client, real KCP session, real DNS-tunnel client handshake). No bound is applied to the stallers themselves.",
     "tiers": {
-        "quick": {"runs": 69 * 12, "chunk": 69, "shrink_s": 40},
-        "thorough": {"runs": 69 * 150, "chunk": 138, "shrink_s": 120},
+        "quick": {"runs": 87 * 10, "chunk": 87, "shrink_s": 40},
+        "thorough": {"runs": 87 * 150, "chunk": 174, "shrink_s": 120},
     },
 }
 
